@@ -260,7 +260,7 @@ CFG = {
     "prop_file": "Properties/C03.v",
     "run_modules": ["Verif.C03.Run", "Verif.C03.RunI"],
     "coq_dirs": ["C03"],
-    "n": {"quick": int(os.environ.get("C03_N", "800")), "thorough": 100000},
+    "n": {"quick": int(os.environ.get("C03_N", "1500")), "thorough": 100000},
     "shard": 100,
     "level": "proof",
     "stages": [stage],
@@ -271,9 +271,10 @@ CFG = {
              "2 faults (JS throw, GoError, foreign Go panic, Interrupt, deep recursion) at the k-th probe(); after EACH call "
              "VerifIdle, the register vector at every probe(), the effect log and the result class are compared with the "
              "model; non-trivial = some call ended abruptly; distinct = by hash of the case"),
-    "theorem_names": ["handleThrow_restores", "handleThrow_idem", "uncatchable_never_caught", "handleThrow_shrinks",
-                      "nested_entry_restored", "idle_refuted_F16", "idle_refuted_F16_overflow", "idle_refuted_F17",
-                      "idle_refuted_F22", "nested_refuted_F21"],
+    "theorem_names": ["idle_restored_partial", "idle_restored", "history_idle", "nested_entry_restored",
+                      "next_run_equivalent", "handleThrow_restores", "handleThrow_idem", "uncatchable_never_caught",
+                      "handleThrow_shrinks", "idle_refuted_F16", "idle_refuted_F16_overflow", "idle_refuted_F22",
+                      "nested_refuted_F21", "idle_F17_repaired"],
     "allowed_axioms": [],
     "trusted_base": [
         "Coq 8.16.1 kernel + vm_compute (no native_compute); theorems closed under the global context (no axioms)",
